@@ -62,7 +62,7 @@ def gen_ops(rng, n, knobs, profile="c05"):
     rng.shuffle(fns)
     fns = fns[:rng.choice([2, 3, 4])]
     xs = XS[:rng.choice([2, 3, 4])]
-    w = {"memoize": 5, "get": 2, "gets": 1, "read": 3, "is": 1.5, "isall": 0.7, "forget_call": 1.2, "forget_fn": 0.7,
+    w = {"memoize": 5, "get": 2, "gets": 1, "read": 3, "hold": 1.2, "read_held": 1.5, "is": 1.5, "isall": 0.7, "forget_call": 1.2, "forget_fn": 0.7,
          "forget_all": 0.25, "list_fns": 0.5, "list_m": 1, "wmeta": 0.8, "rmeta": 0.8, "restart": 0.7}
     if profile == "c06":
         w.update({"wmeta": 0, "rmeta": 0, "list_fns": 0, "list_m": 0, "memoize": 5, "read": 4, "is": 2, "get": 2, "restart": 0.5})
@@ -80,6 +80,8 @@ def gen_ops(rng, n, knobs, profile="c05"):
     kinds = [k for k in w if w[k] > 0]
     weights = [w[k] for k in kinds]
     types = ["str"] * 6 + ["bytes", "list", "dict", "df", "arr", "none", "int"]
+    if knobs.get("hold"):
+        types += ["arr", "df", "arr"]      # weak-referenceable values matter when the caller keeps them alive
     p_over = {"c05": 0.12, "c06": 0.05, "c07": 0.45, "c19": 0.15}.get(profile, 0.1)
     ops = []
     u = 0
@@ -97,7 +99,7 @@ def gen_ops(rng, n, knobs, profile="c05"):
             spec = {"t": t, "n": n_, "u": u if rng.random() > 0.12 else rng.randrange(1, 4), "cls": cls}
             ko = OVERRIDE_KEYS[rng.randrange(len(OVERRIDE_KEYS))] if rng.random() < p_over else None
             ops.append(["memoize", fn, x, spec, ko])
-        elif k in ("get", "read", "is", "forget_call"):
+        elif k in ("get", "read", "is", "forget_call", "hold", "read_held"):
             ops.append([k, fn, x])
         elif k in ("gets", "isall"):
             m = rng.randrange(1, 4)
@@ -236,6 +238,8 @@ def run_ops(W, ops, check, emit_log, model=None, ledger=None, lru=None, faults=N
     from twosigma.memento.storage_base import MemoryCache
     _est = MemoryCache._estimate_object_size
     W.last_size = {}
+    mementos_held = {}
+    epoch = [0]
     held = [] if W.knobs.get("hold") else None   # a caller that keeps every value it ever saw alive
 
     def read_check(i, op, fn, x, g, backend=None, clause="read-value"):
@@ -255,6 +259,7 @@ def run_ops(W, ops, check, emit_log, model=None, ledger=None, lru=None, faults=N
     for i, op in enumerate(ops):
         k = op[0]
         obs = None
+        skipped = False
         if lru is not None:
             lru.before(i, op, W)
         try:
@@ -308,7 +313,8 @@ def run_ops(W, ops, check, emit_log, model=None, ledger=None, lru=None, faults=N
                         # custom metadata is keyed by the call and survives a re-memoize; a record stored
                         # "with the data" is tied to the replaced content version: unspecified from here on
                         meta[mk] = dict(me, unspec=True) if me["with_data"] else me
-                    model.d[(fn, x)] = {"val": clone(val), "meta": meta, "ko": ko,
+                    epoch[0] += 1
+                    model.d[(fn, x)] = {"val": clone(val), "meta": meta, "ko": ko, "epoch": epoch[0],
                                         "old": (old.get("old", []) + [old["val"]])[-3:] if old else []}
                     if old:
                         bump("rememoize_live_key")
@@ -341,6 +347,23 @@ def run_ops(W, ops, check, emit_log, model=None, ledger=None, lru=None, faults=N
                     read_check(i, op, fn, x, g)
                     bump("reads_of_live")
                 obs = g is not None
+            elif k == "hold":
+                # a look-up whose memento the caller keeps: the read comes later, after other operations
+                _, fn, x = op
+                g = be.get_memento(W.ref(fn, x))
+                if present_check(i, op, fn, x, g, "get_memento") and g is not None:
+                    mementos_held[(fn, x)] = (g, model.d[(fn, x)].get("epoch"))
+                    bump("mementos_held")
+                obs = g is not None
+            elif k == "read_held":
+                _, fn, x = op
+                h = mementos_held.get((fn, x))
+                if h is not None and (fn, x) in model.d and model.d[(fn, x)].get("epoch") == h[1] and (fn, x) not in model.unc:
+                    read_check(i, op, fn, x, h[0], clause="read-value-with-held-memento")
+                    bump("reads_with_held_memento")
+                    obs = True
+                else:
+                    skipped = True
             elif k == "is":
                 _, fn, x = op
                 r = be.is_memoized(W.fns[fn].fn_reference(), W.ref(fn, x).arg_hash)
@@ -540,7 +563,7 @@ def run_ops(W, ops, check, emit_log, model=None, ledger=None, lru=None, faults=N
             bad("read-only-store-mutated", op, {"i": i, "events": [list(e) for e in simfs.S.intolerant[:4]]},
                 event=simfs.S.intolerant[0][0], by=k)
         if lru is not None:
-            lru.after(i, op, W, model, bad, bump)
+            lru.after(i, ["noop"] if skipped else op, W, model, bad, bump)
         if ledger is not None:
             ledger.check(i, op, W, model, bad, bump)
         emit_log([i, k, obs])
@@ -816,8 +839,16 @@ class LruLaws:
                 if key not in now or not now[key].has_value:
                     bad("cache-latest-write-not-resident", op, {"i": i, "key": key, "size": size})
                     return
-        elif k in ("get", "gets", "read", "is", "isall"):
-            keys = [(op[1], op[2])] if k in ("get", "read", "is") else [tuple(z) for z in op[1]]
+        elif k in ("get", "gets", "read", "is", "isall", "hold", "read_held"):
+            keys = [(op[1], op[2])] if k in ("get", "read", "is", "hold", "read_held") else [tuple(z) for z in op[1]]
+            if k == "hold":
+                k = "get"
+            from_refs_possible = False
+            if k == "read_held":
+                k = "read"
+                # no look-up precedes this read: a non-resident value may be served from the weak-reference table
+                # without being re-inserted (legitimate, see DESIGN 4/C06)
+                from_refs_possible = True
             for fn, x in keys:
                 key = self.ckey(W, fn, x)
                 if (fn, x) not in model.d:
@@ -842,6 +873,8 @@ class LruLaws:
                         self.fits.setdefault(key, True)
                     if k == "read":
                         self.stats["miss_path_taken"] += 1
+                        if from_refs_possible and key not in now:
+                            continue
                         if not self._filled(i, op, W, fn, x, key, now, t, bad):
                             return
         elif k in ("forget_call", "forget_fn", "forget_all"):
